@@ -1,5 +1,6 @@
 """C11 configuration for ./check"""
 CONF = {
+    'coq_sample': 15,   # cases re-evaluated inside Coq by vm_compute against the extracted runner's output
     'interesting': ['multi-page-packet', 'reopen-same-tuple', 'limit-hit', 'flush-by-age-partial', 'decline-removal', 'keep-from'],
     'rule': 'Multi-connection histories for both assemblers (half of the cases tcpassembly, half reassembly): 1-4 four-tuples x 2 '
             'directions, each direction a sender stream cut into segments (1-30 bytes, 500-1900, multi-page 1901-5900, page-boundary '
